@@ -225,7 +225,7 @@ func (i *Injector) marshal(cfg *config.Config) ([]byte, error) {
 		m := doc.Content[0]
 		for k := 0; k+1 < len(m.Content); k += 2 {
 			if (m.Content[k].Value == scrapeConfigs) == scrape {
-				out.Content = append(out.Content, m.Content[k], m.Content[k+1])
+				out.Content = append(out.Content, m.Content[k], resolveAliases(m.Content[k+1]))
 			}
 		}
 	}
@@ -237,6 +237,22 @@ func (i *Injector) marshal(cfg *config.Config) ([]byte, error) {
 		return nil, errors.Wrapf(err, "marshal config failed")
 	}
 	return data, nil
+}
+
+// resolveAliases returns a copy of n in which every alias is replaced by the node it points to and
+// no anchor is left: the anchor of an alias may be defined in "scrape_configs" of the raw content,
+// which is not part of the generated file
+func resolveAliases(n *yamlv3.Node) *yamlv3.Node {
+	if n.Kind == yamlv3.AliasNode && n.Alias != nil {
+		return resolveAliases(n.Alias)
+	}
+	c := *n
+	c.Anchor = ""
+	c.Content = make([]*yamlv3.Node, 0, len(n.Content))
+	for _, child := range n.Content {
+		c.Content = append(c.Content, resolveAliases(child))
+	}
+	return &c
 }
 
 func (i *Injector) inject() (err error) {
